@@ -74,8 +74,10 @@ class Stats:
     self.maxerr = {}
 
   def note(self, cls, field, err):
+    """Worst error per tolerance class among comparisons that PASSED (used to calibrate the tolerances)."""
     k = cls
-    if err > self.maxerr.get(k, (0.0, ''))[0]:
+    tol = dict(direct=TOL_DIRECT, derived=TOL_DERIVED, f32=TOL_F32, eig=TOL_EIG).get(k.split('-')[0], 1.0)
+    if err <= tol and err > self.maxerr.get(k, (0.0, ''))[0]:
       self.maxerr[k] = (float(err), field)
 
 
@@ -263,7 +265,15 @@ def compare_models(lib, mA, mB, kinds, what):
     if moved['camera']:
       common['camera'] = [x for x in common['camera'] if x not in moved['camera']]
       common['excluded_cameras'] = sorted(moved['camera'])
+  stale = stale_candidates(lib, mA, IA, mB, IB) if fuse else []
+  if stale:
+    # known finding 'fusestatic-stale-geom-site-ids' (dedicated probe): FuseStatic re-orders geoms/sites but the
+    # name->id maps used to resolve references afterwards are not rebuilt; everything that goes through such a
+    # reference (tendons, actuators, sensors, dynamics) is excluded from this case and counted
+    common['stale_refs'] = stale
   for t in OBJTYPES:
+    if stale and t in ('tendon', 'actuator', 'sensor'):
+      continue
     for subset, sk in (([x for x in common[t] if x not in moved[t]], skip),
                        ([x for x in common[t] if x in moved[t]], skip | FUSE_MOVED_SKIP)):
       compare_fields(lib, mA, mB, IA, IB, t, subset, sk, what, tol_derived)
@@ -305,20 +315,20 @@ def compare_models(lib, mA, mB, kinds, what):
       if e > tol:
         fail('%s: %s of joint %r: %s vs %s (err %.3g)' % (what, f, x, va.tolist(), vb.tolist(), e), 'field:' + f)
   # tendon paths, actuator targets, sensor objects (through names)
-  for x in common['tendon']:
+  for x in ([] if stale else common['tendon']):
     a, b = IA.ids['tendon'][x], IB.ids['tendon'][x]
     pa = wrap_path(lib, mA, IA, a)
     pb = wrap_path(lib, mB, IB, b)
     if [p[:2] for p in pa] != [p[:2] for p in pb] or relerr([p[2] for p in pa], [p[2] for p in pb]) > TOL_DIRECT:
       fail('%s: path of tendon %r: %s vs %s' % (what, x, pa, pb), 'field:wrap')
   E = lib.enums
-  for x in common['actuator']:
+  for x in ([] if stale else common['actuator']):
     a, b = IA.ids['actuator'][x], IB.ids['actuator'][x]
     ta = trn_target(E, mA, IA, a)
     tb = trn_target(E, mB, IB, b)
     if ta != tb:
       fail('%s: transmission target of actuator %r: %s vs %s' % (what, x, ta, tb), 'field:actuator_trnid')
-  for x in common['sensor']:
+  for x in ([] if stale else common['sensor']):
     a, b = IA.ids['sensor'][x], IB.ids['sensor'][x]
     oa = IA.name(IA.byobj.get(int(mA.sensor_objtype[a]), 'body'), mA.sensor_objid[a]) if mA.sensor_objid[a] >= 0 else None
     ob = IB.name(IB.byobj.get(int(mB.sensor_objtype[b]), 'body'), mB.sensor_objid[b]) if mB.sensor_objid[b] >= 0 else None
@@ -350,6 +360,44 @@ def compare_models(lib, mA, mB, kinds, what):
     if e > tol_derived:
       fail('%s: stat.%s %s vs %s' % (what, k, va.tolist(), vb.tolist()), 'field:stat')
   return IA, IB, common
+
+
+def refs(lib, m, I):
+  """Every reference to a geom / site / camera / joint / tendon held by tendons, actuators and sensors:
+  key -> (target type, numeric id)."""
+  E = lib.enums
+  out = {}
+  for t, tn in enumerate(I.names['tendon']):
+    for k, w in enumerate(range(int(m.tendon_adr[t]), int(m.tendon_adr[t] + m.tendon_num[t]))):
+      wt = int(m.wrap_type[w])
+      tt = {E.mjWRAP_JOINT: 'joint', E.mjWRAP_SITE: 'site', E.mjWRAP_SPHERE: 'geom', E.mjWRAP_CYLINDER: 'geom'}.get(wt)
+      if tt:
+        out[('wrap', tn, k)] = (tt, int(m.wrap_objid[w]))
+  for a, an in enumerate(I.names['actuator']):
+    tt = {E.mjTRN_JOINT: 'joint', E.mjTRN_JOINTINPARENT: 'joint', E.mjTRN_TENDON: 'tendon', E.mjTRN_SITE: 'site'}.get(
+        int(m.actuator_trntype[a]))
+    if tt:
+      out[('actuator', an)] = (tt, int(m.actuator_trnid[a][0]))
+  for s_, sn in enumerate(I.names['sensor']):
+    tt = I.byobj.get(int(m.sensor_objtype[s_]))
+    if tt and m.sensor_objid[s_] >= 0:
+      out[('sensor', sn)] = (tt, int(m.sensor_objid[s_]))
+  return out
+
+
+def stale_candidates(lib, mA, IA, mB, IB):
+  """References whose target has a different numeric id in the two models (only those can be hit by the known
+  finding 'fusestatic-stale-geom-site-ids').  Returns [(key, type, nameA, idA, nameB, idB)]."""
+  ra, rb = refs(lib, mA, IA), refs(lib, mB, IB)
+  out = []
+  for k, (tt, ida) in ra.items():
+    if k not in rb:
+      continue
+    na = IA.name(tt, ida)
+    idb = rb[k][1]
+    if IB.ids[tt].get(na) != ida:
+      out.append((k, tt, na, ida, IB.name(rb[k][0], idb), idb))
+  return out
 
 
 def wrap_path(lib, m, I, t):
@@ -393,9 +441,12 @@ def fused_mass_check(lib, mA, mB, IA, IB, what):
       j = int(mA.body_parentid[j])
     group.setdefault(j, []).append(i)
   nfused = mA.nbody - mB.nbody
+  hetero = False
   for j, members in group.items():
     if j == 0:
       continue                    # the world has no mass properties
+    if any(mA.body_mass[i] > 0 and mA.body_gravcomp[i] != mA.body_gravcomp[j] for i in members):
+      hetero = True
     b = IB.ids['body'][IA.names['body'][j]]
     mass = sum(float(mA.body_mass[i]) for i in members)
     if mass <= 0:
@@ -416,7 +467,7 @@ def fused_mass_check(lib, mA, mB, IA, IB, what):
       fail('%s: fused body %r: mass %r vs %r, com %s vs %s, inertia err %.3g' % (
           what, IA.names['body'][j], mass, float(mB.body_mass[b]), com.tolist(), dB.xipos[b].tolist(),
           relerr(I, IBw)), 'fuse:mass')
-  return nfused
+  return nfused, hetero
 
 
 # ------------------------------------------------------------------------------------------------ trajectories
@@ -530,6 +581,135 @@ def compare_trajectories(ck, lib, mA, mB, IA, IB, common, seed, what, fuse=False
   return True
 
 
+
+# ------------------------------------------------------------------------------------------------ fusestatic probe
+
+@st.composite
+def fuse_probe_case(draw):
+  """Small models aimed at the two known fusestatic findings: cameras inside fused bodies, gravcomp of fused groups."""
+  d = draw
+  host = gr.draw_body(d, 'b1', 1, True, allow_static=False)
+  host['gravcomp'] = d(st.sampled_from([0.0, 0.0, 0.5]))
+  def static(name, idx):
+    b = dict(k='body', name=name, pos=gr._vec(d, -0.4, 0.4), quat=gr.draw_quat(d), inertial=None, items=[],
+             gravcomp=d(st.sampled_from([0.0, 0.0, 0.5, 1.0])))
+    b['items'].append(gr.draw_geom(d, 'g' + name, massive=True))
+    if d(st.booleans()):
+      b['items'].append(gr.draw_camera(d, 'c' + name))
+    if d(st.booleans()):
+      b['items'].append(gr.draw_site(d, 's' + name))
+    return b
+  s1 = static('s1', 2)
+  if d(st.booleans()):
+    s1['items'].append(static('s2', 3))
+  tendons, acts, sens = [], [], []
+  if d(st.booleans()):
+    # a moving sibling defined BEFORE the static body, referenced by name from a tendon / actuator / sensors: fusing
+    # moves the static body's geoms and sites in front of the sibling's in id order
+    b3 = gr.draw_body(d, 'b3', 3, False, allow_static=False)
+    b3['gravcomp'] = 0.0
+    b3['items'] = [it for it in b3['items'] if it['k'] not in ('site', 'camera')] + [gr.draw_site(d, 'sb3')]
+    host['items'].append(b3)
+    s1['items'].append(gr.draw_site(d, 'sx1'))
+    g3 = [it for it in b3['items'] if it['k'] == 'geom'][0]['name']
+    if d(st.booleans()):
+      tendons.append(dict(kind='spatial', name='t0', sites=['sb3', 'sx1'], stiffness=2.0, damping=0.1, frictionloss=0.0,
+                          limited=False, range=[0.0, 0.0], springlength=None, margin=0.0, owner='parent', refs=['sb3']))
+    if d(st.booleans()):
+      acts.append(dict(kind='motor', name='a0', site='sb3', gear=[1.0, 0.5, 0.0, 0.0, 0.2, 0.0], ctrllimited=False,
+                       ctrlrange=[0.0, 0.0], forcelimited=False, forcerange=[0.0, 0.0], owner='parent', refs=['sb3']))
+    for k, (ty, ot, on) in enumerate([('framepos', 'site', 'sb3'), ('framepos', 'geom', g3), ('framequat', 'site', 'sx1')]):
+      if d(st.booleans()):
+        sens.append(dict(name='n%d' % k, type=ty, objtype=ot, obj=on, owner='parent', refs=[on]))
+  host['items'].append(s1)
+  world = [host]
+  if d(st.booleans()):
+    world.append(static('sw1', 4))
+  model = dict(world=world, tendons=tendons, actuators=acts, sensors=sens, attach=None,
+               option=dict(timestep=0.002, gravity=[0.0, 0.0, -9.81], integrator='Euler', nocontact=True))
+  plain = gr.Renderer(None).render(model)
+  rw = gr.Renderer(d, ['fuse']).render(model)
+  # alternative for the gravcomp finding: fused static bodies take the gravcomp of the body they are fused into
+  def homog(items, g):
+    for it in items:
+      if it['k'] == 'body':
+        isstatic = not any(x['k'] == 'joint' for x in it['items'])
+        if isstatic:
+          it['gravcomp'] = g
+        homog(it['items'], it['gravcomp'])
+  alt = gr._copy(model)
+  homog(alt['world'], 0.0)
+  return dict(kinds=['fuse'], seed=d(st.integers(0, 2 ** 31 - 1)), plain=plain, rw=rw, alt=gr.Renderer(None).render(alt),
+              child=None, stats=[], skip=None)
+
+
+def check_fuse_probe(ck, lib, case):
+  ck.journal(case)
+  mA = compile_case(lib, case['plain'], None)
+  mB = compile_case(lib, case['rw'], None)
+  what = 'fuse-probe'
+  IA, IB, common = compare_models(lib, mA, mB, ['fuse'], what)
+  nf, hetero = fused_mass_check(lib, mA, mB, IA, IB, what)
+  labels = ['probe:fuse', 'probe:fused=%d' % min(nf, 3)]
+  # (a) cameras of fused bodies: world pose at qpos0
+  dA, dB = lib.make_data(mA), lib.make_data(mB)
+  lib.mj_forward(mA, dA)
+  lib.mj_forward(mB, dB)
+  for x in common.get('excluded_cameras', []):
+    a, b = IA.ids['camera'][x], IB.ids['camera'][x]
+    e = max(relerr(dA.cam_xpos[a], dB.cam_xpos[b]), relerr(dA.cam_xmat[a], dB.cam_xmat[b]))
+    if e <= TOL_DIRECT * 10:
+      labels.append('probe:camera-reframed-correctly')
+      continue
+    local_same = relerr(mA.cam_pos[a], mB.cam_pos[b]) <= TOL_DIRECT and quaterr(mA.cam_quat[a], mB.cam_quat[b]) <= TOL_DIRECT
+    j = int(mA.cam_bodyid[a])
+    while IA.names['body'][j] not in IB.ids['body']:
+      j = int(mA.body_parentid[j])
+    msg = ('fusestatic: camera %r of a fused body has world position %s instead of %s' % (
+        x, dB.cam_xpos[b].tolist(), dA.cam_xpos[a].tolist()))
+    if local_same and IB.name('body', mB.cam_bodyid[b]) == IA.names['body'][j]:
+      labels.append('probe:camera-frame-lost(known-finding)')
+      ck.violation(msg + ' (local pos/quat kept unchanged while the camera is re-attached to the parent; XMLreference '
+                   'compiler/fusestatic promises identical kinematics)', dict(check='fuse-probe', case=case),
+                   bucket='fuse-camera', fingerprint='fusestatic-camera-frame-lost')
+    else:
+      fail(msg, 'fuse-camera-other')
+  # (c) references to re-ordered geoms / sites
+  stale = common.get('stale_refs', [])
+  wrong = [r for r in stale if r[2] != r[4]]
+  if stale and not wrong:
+    labels.append('probe:reindexed-references-correct')
+  if wrong:
+    other = [r for r in wrong if r[3] != r[5]]
+    if other:
+      fail('fusestatic: reference %s points to %s %r instead of %r (ids %d vs %d)' % (
+          other[0][0], other[0][1], other[0][4], other[0][2], other[0][5], other[0][3]), 'fuse-refs-other')
+    labels.append('probe:stale-ids(known-finding)')
+    r = wrong[0]
+    ck.violation('fusestatic: %s refers to %s %r in the compiled model instead of %r: the numeric id %d is the one the '
+                 'target had BEFORE FuseStatic re-ordered the %ss (name->id maps are only rebuilt for bodies); tendons, '
+                 'site actuators and geom/site sensors silently act on the wrong object' % (r[0], r[1], r[4], r[2], r[5], r[1]),
+                 dict(check='fuse-probe', case=case), bucket='fuse-stale-ids', fingerprint='fusestatic-stale-geom-site-ids')
+    ck.case(nontrivial=nf > 0, key=(case['plain'],), labels=labels)
+    return
+  # (b) gravcomp of fused groups
+  try:
+    compare_trajectories(ck, lib, mA, mB, IA, IB, common, case['seed'], what, fuse=True)
+    labels.append('probe:traj-equal' + ('-hetero-gravcomp' if hetero else ''))
+  except Violation as e:
+    if not hetero:
+      raise
+    mC = compile_case(lib, case['alt'], None)
+    IC = Index(lib, mC)
+    compare_trajectories(ck, lib, mC, mB, IC, IB, common, case['seed'], what + '(alt)', fuse=True)   # else: VIOLATION
+    labels.append('probe:gravcomp-changed(known-finding)')
+    ck.violation('fusestatic changes the dynamics when a fused static body and the body it is fused into have different '
+                 'gravcomp: the fused body applies its own gravcomp to the aggregated mass (XMLreference compiler/'
+                 'fusestatic promises identical dynamics). %s' % e, dict(check='fuse-probe', case=case),
+                 bucket='fuse-gravcomp', fingerprint='fusestatic-gravcomp-changed')
+  ck.case(nontrivial=nf > 0, key=(case['plain'],), labels=labels)
+
+
 # ------------------------------------------------------------------------------------------------ the checks
 
 def check_rewrite(ck, lib, case, probe=False):
@@ -571,14 +751,21 @@ def check_rewrite(ck, lib, case, probe=False):
     return
   IA, IB, common = compare_models(lib, mA, mB, kinds, what)
   labels = ['kind:' + k for k in kinds] + ['nkinds=%d' % len(kinds)] + ['rw:' + s for s in case['stats']]
+  traj = True
   if 'fuse' in kinds:
-    nf = fused_mass_check(lib, mA, mB, IA, IB, what)
+    nf, hetero = fused_mass_check(lib, mA, mB, IA, IB, what)
     labels.append('fuse:fused-bodies' if nf else 'fuse:nothing-to-fuse')
     if common.get('excluded_cameras'):
       labels.append('fuse:camera-in-fused-body-excluded(known-finding)')
+    if common.get('stale_refs'):
+      labels.append('fuse:reindexed-references-excluded(known-finding)')
+      traj = False
+    if hetero:      # known finding 'fusestatic-gravcomp-changed' (dedicated probe): trajectories legitimately differ
+      labels.append('fuse:gravcomp-differs-in-fused-group-excluded(known-finding)')
+      traj = False
   if 'discard' in kinds:
     labels.append('discard:geoms-removed' if mB.ngeom < mA.ngeom else 'discard:nothing-to-discard')
-  if compare_trajectories(ck, lib, mA, mB, IA, IB, common, case['seed'], what, fuse='fuse' in kinds):
+  if traj and compare_trajectories(ck, lib, mA, mB, IA, IB, common, case['seed'], what, fuse='fuse' in kinds):
     labels.append('traj:compared')
   nt = case['rw'] != case['plain']
   sample = None
@@ -608,6 +795,8 @@ def main(ck):
     check_rewrite(ck, lib, case, probe=True)
   ck.run_hypothesis(probe, gr.rewrite_case(max_bodies=3, only=['replicate'], noncumulative=True, replicate=True,
                                            attach=False), ck.budget(12, 100), name='replicate-probe', shrink=False)
+  ck.run_hypothesis(lambda c: check_fuse_probe(ck, lib, c), fuse_probe_case(), ck.budget(12, 100), name='fuse-probe',
+                    shrink=False)
   ck.extra['tolerances'] = dict(TOL_DIRECT=TOL_DIRECT, TOL_DERIVED=TOL_DERIVED, TOL_F32=TOL_F32, TRAJ_ATOL=TRAJ_ATOL,
                                 TRAJ_K=TRAJ_K, ILLCOND=ILLCOND)
   ck.extra['max_observed_error'] = {k: dict(err=v[0], field=v[1]) for k, v in STATS.maxerr.items()}
